@@ -302,9 +302,11 @@ impl Iterator for ParallelHeapIter<'_> {
 
                                     some_or_return!(self.parallel_cmp((a1, n1), (2, atom!(".")), v1, v2));
 
-                                    self.stack.push((self.heap[s1+1], self.heap[l2]));
-
+                                    // the stack is LIFO: the tails go in first so that the
+                                    // heads are compared first, as in every other arm.
                                     self.stack.push((self.heap[s1+2], self.heap[l2+1]));
+
+                                    self.stack.push((self.heap[s1+1], self.heap[l2]));
                                 }
                                 (HeapCellValueTag::PStrLoc, l2) => {
                                     if self.tabu_list.contains(&(s1, l2)) {
